@@ -8,9 +8,14 @@ open Sygma.Drv.C03 (statusOf showStatus chars bits)
 
 def K : Nat := 2 ^ 64
 
-/-- `dest.res.nonce` items; idx = position -/
+/-- deposits flagged `!` / `?` / `#` cannot be handled by the RetryV1 path (handler panics / errs / foreign data) -/
+def badIdx (s : String) : List Nat :=
+  ((items s ",").zipIdx.filter fun (it, _) => it.endsWith "!" || it.endsWith "?" || it.endsWith "#").map (·.2)
+
+/-- `dest.res.nonce` items (optionally flagged); idx = position -/
 def parseDeps (s : String) : Option (List Dep) :=
   ((items s ",").zipIdx.mapM fun (it, i) =>
+    let it := if it.endsWith "!" || it.endsWith "?" || it.endsWith "#" then (it.dropEnd 1).toString else it
     match it.splitOn "." with
     | [d, r, n] => do
       let d ← d.toNat?; let r ← r.toNat?; let n ← n.toNat?
@@ -232,7 +237,11 @@ def handle (op : String) (args : List String) (impl : String) : Option Verdict :
     if sts.length ≠ ds.length then return bad
     let m := mkMap ds sts
     let s : Store := ⟨m, fl⟩
-    let (out, s') := retryV1 s ds
+    -- a deposit that cannot be handled makes no store call and is not re-emitted; every other deposit of the retried
+    -- transaction is processed as usual (per-deposit isolation): the loop with the matcher "can be handled"
+    let bads := badIdx deps
+    let mt : Dep → Bool := fun d => !bads.contains d.idx
+    let (out, s') := filterBy mt s ds
     let model := showGroups out ++ "|" ++ showFinal s'.m ds
     let ok := match impl.splitOn "|" with
       | [em, fin] =>
@@ -251,10 +260,10 @@ def handle (op : String) (args : List String) (impl : String) : Option Verdict :
           merged.length == all.length &&
           gs.all (fun g => (g.map (·.idx)).Pairwise (· < ·)) &&
           ((gs.map fun g => (g.head?.map (·.dest)).getD 0).Pairwise (· ≠ ·)) &&
-          decide (P17 m s.faults (fun _ => true) ds merged m')
+          decide (P17 m s.faults mt ds merged m')
         | _, _ => false
       | _ => false
-    return ⟨model, ok, s!"retryv1:n={min ds.length 4}:groups={min (byDest out).length 3}:faultfree={faultFree s}"⟩
+    return ⟨model, ok, s!"retryv1:n={min ds.length 4}:groups={min (byDest out).length 3}:faultfree={faultFree s}:unhandled={min bads.length 2}"⟩
   | "handler", [kind, latest, height, conf, deps, res, dest, sts, faults] => some <| Id.run do
     let some latest := latest.toNat? | return bad
     let some height := height.toNat? | return bad
@@ -303,9 +312,17 @@ def handle (op : String) (args : List String) (impl : String) : Option Verdict :
             | some ks => ks.all fun k => lookup prev k == Status.missing || lookup prev k == Status.failed
             | none => false
           | _ => true
+        -- … and is recorded pending (in flight) when Execute goes on to sign it (deliver_marks_selected_pending)
+        let markOk := fun (next : List (Nat × Status)) (st : String) =>
+          match ((st.splitOn "~").headD "").splitOn ":" with
+          | ["s", ks] => match natList ks with
+            | some ks => ks.all fun k => k ≥ n || lookup next k == Status.pending
+            | none => false
+          | _ => true
         match snaps with
         | some sn =>
           mx == "free" && steps.length == ops.length &&
+          (sn.zip steps).all (fun (next, st) => markOk next st) &&
           ((([] : List (Nat × Status)) :: sn).zip steps).all (fun (prev, st) => selOk prev st) &&
           ((([] : List (Nat × Status)) :: sn).zip (sn.zip ops)).all (fun (prev, (next, op)) => stepOk op prev next n) &&
           (!sequential || (List.range n).all fun k => finalAlong k ([] :: sn))
@@ -334,9 +351,17 @@ def handle (op : String) (args : List String) (impl : String) : Option Verdict :
             | some ks => ks.all fun k => lookup prev k == Status.missing || lookup prev k == Status.failed
             | none => false
           | _ => true
+        -- … and is recorded pending (in flight) when Execute goes on to sign it (deliver_marks_selected_pending)
+        let markOk := fun (next : List (Nat × Status)) (st : String) =>
+          match ((st.splitOn "~").headD "").splitOn ":" with
+          | ["s", ks] => match natList ks with
+            | some ks => ks.all fun k => k ≥ n || lookup next k == Status.pending
+            | none => false
+          | _ => true
         match snaps with
         | some sn =>
           mx == "free" && steps.length == ops.length &&
+          (sn.zip steps).all (fun (next, st) => markOk next st) &&
           ((([] : List (Nat × Status)) :: sn).zip steps).all (fun (prev, st) => selOk prev st) &&
           ((([] : List (Nat × Status)) :: sn).zip (sn.zip ops)).all (fun (prev, (next, op)) => stepOk op prev next n) &&
           ((List.range n).all fun k => finalAlong k ([] :: sn))
